@@ -244,6 +244,7 @@ pub fn run(ctx: &Ctx) -> i32 {
         if !s.built.data.common.luts.is_empty() {
             for i in (0..n_cells).step_by(step) {
                 adv.push((Corr::Cell(i, 0), Strat::S6));
+                adv.push((Corr::Cell(i, 0), Strat::S7));
             }
         }
         par_for_chunk(adv.len(), 4, |k| {
@@ -255,7 +256,7 @@ pub fn run(ctx: &Ctx) -> i32 {
                     Err(_) => return Ok("adversarial:no-proof-emitted".into()),
                 };
                 differential(pair, vo, &p, &format!("adversarial:{:?}", std::mem::discriminant(st)).replace("Discriminant", ""))
-                    .map(|c| format!("{c}:{}", match st { Strat::S0 => "S0", Strat::S1 => "S1", Strat::S2(_) => "S2", Strat::S4(_) => "S4", Strat::S5(_) => "S5", Strat::S6 => "S6" }))
+                    .map(|c| format!("{c}:{}", match st { Strat::S0 => "S0", Strat::S1 => "S1", Strat::S2(_) => "S2", Strat::S4(_) => "S4", Strat::S5(_) => "S5", Strat::S6 => "S6", Strat::S7 => "S7" }))
             });
         });
         // wrong verifier data
